@@ -15,6 +15,8 @@
 (*                       are signed only for listed source addresses       *)
 (*  C06 SigIffSucceeded  a response entry carries a signature iff its      *)
 (*                       state is SUCCEEDED                                *)
+(*      FailClosed       no signature for a request / position at which a  *)
+(*                       dependency failed (Fault events)                  *)
 (*  C09 AdvancingSigned  a well-formed, authorised duty above everything   *)
 (*                       signed before is signed (sequential, fault-free   *)
 (*                       runs only: the Invoke event says so)              *)
@@ -34,8 +36,9 @@ VARIABLES l,       \* next line of the trace
           hiS, hiT, hiP, \* key -> highest source / target / slot signed (or present in the database at start)
           snap,    \* r -> [s, t, p] : the three functions above as they were when r was invoked
           req,     \* r -> the Invoke event
+          fpos,    \* faulted positions <<r, i>> (i = 0: the whole request) as reported by Fault events
           bad      \* set of violation descriptions found at Respond / Release
-vars == <<l, relA, relP, doneP, floor, hiS, hiT, hiP, snap, req, bad>>
+vars == <<l, relA, relP, doneP, floor, hiS, hiT, hiP, snap, req, fpos, bad>>
 
 Ev == Trace[l]
 Is(name) == l <= Len(Trace) /\ Ev.ev = name /\ l' = l + 1
@@ -44,12 +47,12 @@ Get(f, k) == IF k \in DOMAIN f THEN f[k] ELSE -1
 Put(f, k, v) == [x \in (DOMAIN f) \cup {k} |-> IF x = k THEN v ELSE f[x]]
 
 Init == /\ l = 1 /\ relA = {} /\ relP = {} /\ doneP = {} /\ floor = <<>>
-        /\ hiS = <<>> /\ hiT = <<>> /\ hiP = <<>> /\ snap = <<>> /\ req = <<>> /\ bad = {}
+        /\ hiS = <<>> /\ hiT = <<>> /\ hiP = <<>> /\ snap = <<>> /\ req = <<>> /\ fpos = {} /\ bad = {}
         /\ TLCSet(1, 1)
 
 Begin == /\ Is("Begin")
          /\ relA' = {} /\ relP' = {} /\ doneP' = {} /\ floor' = <<>>
-         /\ hiS' = <<>> /\ hiT' = <<>> /\ hiP' = <<>> /\ snap' = <<>> /\ req' = <<>>
+         /\ hiS' = <<>> /\ hiT' = <<>> /\ hiP' = <<>> /\ snap' = <<>> /\ req' = <<>> /\ fpos' = {}
          /\ UNCHANGED bad
 
 \* Floor: what the database already held for a key when the run started (prior records).
@@ -57,13 +60,13 @@ FloorEv == /\ Is("Floor")
            /\ hiS' = Put(hiS, Ev.k, Max(Get(hiS, Ev.k), Ev.s))
            /\ hiT' = Put(hiT, Ev.k, Max(Get(hiT, Ev.k), Ev.t))
            /\ hiP' = Put(hiP, Ev.k, Max(Get(hiP, Ev.k), Ev.slot))
-           /\ UNCHANGED <<relA, relP, doneP, floor, snap, req, bad>>
+           /\ UNCHANGED <<relA, relP, doneP, floor, snap, req, fpos, bad>>
 
 Invoke == /\ Is("Invoke")
           /\ floor' = Put(floor, Ev.r, doneP)
           /\ snap' = Put(snap, Ev.r, [s |-> hiS, t |-> hiT, p |-> hiP])
           /\ req' = Put(req, Ev.r, Ev)
-          /\ UNCHANGED <<relA, relP, doneP, hiS, hiT, hiP, bad>>
+          /\ UNCHANGED <<relA, relP, doneP, hiS, hiT, hiP, fpos, bad>>
 
 RouteOK(e) ==
     /\ (e.kind = "att") => e.dom = "att"
@@ -83,8 +86,9 @@ Release == /\ Is("Release")
                  /\ UNCHANGED <<relA, hiS, hiT>>
               \/ /\ Ev.kind \notin {"att", "prop"}
                  /\ UNCHANGED <<relA, relP, hiS, hiT, hiP>>
-           /\ bad' = IF RouteOK(Ev) THEN bad ELSE bad \cup {<<"route", l>>}
-           /\ UNCHANGED <<doneP, floor, snap, req>>
+           /\ bad' = bad \cup (IF RouteOK(Ev) THEN {} ELSE {<<"route", l>>})
+                         \cup (IF <<Ev.r, 0>> \in fpos \/ <<Ev.r, Ev.i + 1>> \in fpos THEN {<<"failclosed", l>>} ELSE {})
+           /\ UNCHANGED <<doneP, floor, snap, req, fpos>>
 
 \* C09: entry i of request q (invoked with snapshot sn) had to be signed
 AttAdvancing(e, sn) == /\ e.dom = "att" /\ e.s <= MaxI /\ e.t <= MaxI
@@ -106,12 +110,17 @@ Respond ==
                     ELSE {}
            c06 == {<<"sigstate", l, i>> : i \in {j \in 1 .. n : (Ev.res[j] = "SUCCEEDED") # Ev.sig[j]}}
        IN bad' = bad \cup c09 \cup c06
-    /\ UNCHANGED <<relA, relP, floor, hiS, hiT, hiP, snap, req>>
+    /\ UNCHANGED <<relA, relP, floor, hiS, hiT, hiP, snap, req, fpos>>
 
-Other == /\ l <= Len(Trace) /\ Ev.ev \notin {"Begin", "Floor", "Invoke", "Release", "Respond"}
-         /\ l' = l + 1 /\ UNCHANGED <<relA, relP, doneP, floor, hiS, hiT, hiP, snap, req, bad>>
+\* C06: a dependency failed (or gave no definite answer) while request r / its entry i was processed
+FaultEv == /\ Is("Fault")
+           /\ fpos' = fpos \cup {<<Ev.r, Ev.i>>}
+           /\ UNCHANGED <<relA, relP, doneP, floor, hiS, hiT, hiP, snap, req, bad>>
 
-Next == Begin \/ FloorEv \/ Invoke \/ Release \/ Respond \/ Other
+Other == /\ l <= Len(Trace) /\ Ev.ev \notin {"Begin", "Floor", "Invoke", "Release", "Respond", "Fault"}
+         /\ l' = l + 1 /\ UNCHANGED <<relA, relP, doneP, floor, hiS, hiT, hiP, snap, req, fpos, bad>>
+
+Next == Begin \/ FloorEv \/ Invoke \/ Release \/ Respond \/ FaultEv \/ Other
 Spec == Init /\ [][Next]_vars
 
 HighWater == TLCSet(1, IF l > TLCGet(1) THEN l ELSE TLCGet(1))
@@ -123,5 +132,6 @@ SlotsIncrease == \A p \in relP : p.r \in DOMAIN floor =>
                     \A d \in floor[p.r] : d.k = p.k => p.slot > d.slot
 Routed == \A b \in bad : b[1] # "route"
 SigIffSucceeded == \A b \in bad : b[1] # "sigstate"
+FailClosed == \A b \in bad : b[1] # "failclosed"
 AdvancingSigned == \A b \in bad : b[1] # "advancing"
 =============================================================================
